@@ -1,2 +1,231 @@
-(* C15 — stub: no theorems yet *)
+(* C15 — caller and stack annotations identify the user's call site.
+   Only statements closed by [exact]; the proofs are in C15/Proofs.v.
+
+   Reading guide.  [us] is the user's goroutine stack, innermost first, from the function that
+   makes the log call outwards; [cs] is ANY list of conversions applied to zap.New(core):
+   Sugar / Desugar / With / WithLazy / Named / WithOptions(AddCallerSkip n | WithCaller b |
+   AddStacktrace en | other) / L() / S(); [f] is any front end (every *Logger method, every
+   *SugaredLogger method, the std-log bridge through any log function) whose receiver kind is
+   the kind [cs] produces; [total_skip cs] is the sum of the AddCallerSkip values in [cs];
+   [fuel] bounds the iterations of Capture's doubling loop: the theorems hold for every fuel
+   from [length us + 12] upwards, i.e. the loop has always terminated by then; [storage] is
+   the size of whatever pooled slab the capture got (the pool only ever holds slabs >= 64,
+   C15_capture_history). *)
+From Coq Require Import List ZArith Bool.
+Import ListNotations.
 From Zap Require Import Base.Wire C15.Model C15.Proofs.
+Local Open Scope Z_scope.
+
+(* the model of the code computes exactly what the property demands, for every chain of
+   conversions, front end, level, user stack, pooled storage size *)
+Theorem C15_refines_spec : forall fuel core cs f lvl us storage,
+  fe_sugared f = chain_kind cs -> 0 <= total_skip cs -> (1 <= storage)%nat ->
+  (length us + 12 <= fuel)%nat -> hd_not_log us = true ->
+  log_via fuel f (apply_chain (HL (new_logger core)) cs) lvl us storage = expected_zap core cs f lvl us.
+Proof. exact log_via_spec. Qed.
+Print Assumptions C15_refines_spec.
+
+(* the reported frame = the user's frame, shifted outward by exactly the configured skip *)
+Theorem C15_frame : forall fuel core cs f lvl us storage,
+  fe_sugared f = chain_kind cs -> 0 <= total_skip cs -> (1 <= storage)%nat ->
+  (length us + 12 <= fuel)%nat -> hd_not_log us = true ->
+  core (fe_level f lvl) = true -> cfg_caller_on cs = true ->
+  caller_of (log_via fuel f (apply_chain (HL (new_logger core)) cs) lvl us storage)
+  = nth_error us (Z.to_nat (total_skip cs)).
+Proof. exact frame_thm. Qed.
+Print Assumptions C15_frame.
+
+(* wrapper functions of any depth with a matching AddCallerSkip: the caller of the outermost wrapper *)
+Theorem C15_wrappers : forall fuel core cs f lvl (ws : list frame) (u : frame) (rest : list frame) storage,
+  fe_sugared f = chain_kind cs -> total_skip cs = Z.of_nat (length ws) -> (1 <= storage)%nat ->
+  (length (ws ++ u :: rest) + 12 <= fuel)%nat -> hd_not_log (ws ++ u :: rest) = true ->
+  core (fe_level f lvl) = true -> cfg_caller_on cs = true ->
+  caller_of (log_via fuel f (apply_chain (HL (new_logger core)) cs) lvl (ws ++ u :: rest) storage) = Some u.
+Proof. exact wrappers_thm. Qed.
+Print Assumptions C15_wrappers.
+
+Theorem C15_caller_only_when_enabled : forall fuel core cs f lvl us storage,
+  fe_sugared f = chain_kind cs -> 0 <= total_skip cs -> (1 <= storage)%nat ->
+  (length us + 12 <= fuel)%nat -> hd_not_log us = true ->
+  cfg_caller_on cs = false ->
+  caller_of (log_via fuel f (apply_chain (HL (new_logger core)) cs) lvl us storage) = None.
+Proof. exact caller_off_thm. Qed.
+Print Assumptions C15_caller_only_when_enabled.
+
+(* the accumulated skip behind any chain: Sugar +2 / Desugar -2 cancel against the two extra
+   frames of the sugared front ends *)
+Theorem C15_chain_skip : forall cs h,
+  callerSkip (base_of (apply_chain h cs))
+  = callerSkip (base_of h) + total_skip cs
+    + kind_delta (is_sugared (apply_chain h cs)) - kind_delta (is_sugared h).
+Proof. exact (fun cs h => proj1 (apply_chain_state cs h)). Qed.
+Print Assumptions C15_chain_skip.
+
+(* Capture(skip, Full) returns the complete call chain whatever its depth and whatever pooled
+   storage it starts from: the doubling loop terminates and never truncates *)
+Theorem C15_capture_complete : forall stk skip storage,
+  (1 <= storage)%nat ->
+  exists fuel, forall fuel', (fuel <= fuel')%nat ->
+    exists s', capture fuel' skip Full stk storage = Some (skipn (Z.to_nat (skip + captureSelfSkip)) stk, s')
+               /\ (storage <= s')%nat.
+Proof. exact capture_complete_thm. Qed.
+Print Assumptions C15_capture_complete.
+
+(* every history of captures against the pool (any object handed out by Get, grown storages
+   returned by Free): no capture diverges, each returns its whole stack, storages stay >= 64 *)
+Theorem C15_capture_history : forall ops p, pool_ok p ->
+  exists p', run_caps ops p = Some (map cap_result ops, p') /\ pool_ok p'.
+Proof. exact pool_history. Qed.
+Print Assumptions C15_capture_history.
+
+(* the model can express the failures: a capture without the loop truncates at the slab;
+   a loop that re-allocates without doubling never ends on a stack that fills the slab *)
+Theorem C15_capture_trunc_refuted :
+  exists stk skip, capture_trunc skip stk initStorage <> skipn (Z.to_nat (skip + captureSelfSkip)) stk.
+Proof. exact capture_trunc_refuted. Qed.
+Print Assumptions C15_capture_trunc_refuted.
+
+Theorem C15_capture_nogrow_diverges : forall fuel skip stk len,
+  (len <= length (skipn (Z.to_nat skip) stk))%nat ->
+  grow_nogrow fuel skip stk len (callers skip len stk) = None.
+Proof. exact grow_nogrow_diverges. Qed.
+Print Assumptions C15_capture_nogrow_diverges.
+
+(* stack traces are attached exactly for the levels configured *)
+Theorem C15_stack_levels : forall fuel core cs f lvl us storage,
+  fe_sugared f = chain_kind cs -> 0 <= total_skip cs -> (1 <= storage)%nat ->
+  (length us + 12 <= fuel)%nat -> hd_not_log us = true ->
+  core (fe_level f lvl) = true -> (Z.to_nat (total_skip cs) < length us)%nat ->
+  (stack_of (log_via fuel f (apply_chain (HL (new_logger core)) cs) lvl us storage) <> []
+   <-> cfg_stack_on cs (fe_level f lvl) = true).
+Proof. exact stack_levels_thm. Qed.
+Print Assumptions C15_stack_levels.
+
+(* ... start at the reported frame ... *)
+Theorem C15_stack_starts_at_caller : forall fuel core cs f lvl us storage,
+  fe_sugared f = chain_kind cs -> 0 <= total_skip cs -> (1 <= storage)%nat ->
+  (length us + 12 <= fuel)%nat -> hd_not_log us = true ->
+  core (fe_level f lvl) = true -> cfg_caller_on cs = true -> cfg_stack_on cs (fe_level f lvl) = true ->
+  hd_error (stack_of (log_via fuel f (apply_chain (HL (new_logger core)) cs) lvl us storage))
+  = caller_of (log_via fuel f (apply_chain (HL (new_logger core)) cs) lvl us storage).
+Proof. exact stack_starts_at_caller_thm. Qed.
+Print Assumptions C15_stack_starts_at_caller.
+
+(* ... and contain the complete call chain, only the final (runtime) frame dropped *)
+Theorem C15_stack_complete : forall fuel core cs f lvl us storage,
+  fe_sugared f = chain_kind cs -> 0 <= total_skip cs -> (1 <= storage)%nat ->
+  (length us + 12 <= fuel)%nat -> hd_not_log us = true ->
+  core (fe_level f lvl) = true -> cfg_stack_on cs (fe_level f lvl) = true ->
+  forall u r, skipn (Z.to_nat (total_skip cs)) us = u :: r ->
+  stack_of (log_via fuel f (apply_chain (HL (new_logger core)) cs) lvl us storage) = u :: removelast r /\
+  (r <> [] ->
+   stack_of (log_via fuel f (apply_chain (HL (new_logger core)) cs) lvl us storage) ++ [last r u]
+   = skipn (Z.to_nat (total_skip cs)) us).
+Proof. exact stack_complete_thm. Qed.
+Print Assumptions C15_stack_complete.
+
+(* a skip that passes the end of the stack: no annotation, and the failure is reported *)
+Theorem C15_skip_past_the_end : forall fuel core cs f lvl us storage,
+  fe_sugared f = chain_kind cs -> 0 <= total_skip cs -> (1 <= storage)%nat ->
+  (length us + 12 <= fuel)%nat -> hd_not_log us = true ->
+  core (fe_level f lvl) = true -> cfg_caller_on cs = true ->
+  (length us <= Z.to_nat (total_skip cs))%nat ->
+  log_via fuel f (apply_chain (HL (new_logger core)) cs) lvl us storage
+  = Entry {| e_caller := None; e_stack := []; e_err := true |}.
+Proof. exact past_the_end_thm. Qed.
+Print Assumptions C15_skip_past_the_end.
+
+(* the std-log bridge finds the user's frame above ANY number (< 16) of log-package frames *)
+Theorem C15_std_any_log_depth : forall fuel core cs lv (lf us : list frame) storage l,
+  apply_chain (HL (new_logger core)) cs = HL l ->
+  0 <= total_skip cs -> (1 <= storage)%nat -> (length lf + length us + 6 <= fuel)%nat ->
+  forallb is_log_frame lf = true -> (length lf < stdLogScan)%nat -> hd_not_log us = true ->
+  log_std fuel l lv lf us storage
+  = expected (core lv) (cfg_caller_on cs) (cfg_stack_on cs lv) (total_skip cs) us.
+Proof. exact std_any_depth_thm. Qed.
+Print Assumptions C15_std_any_log_depth.
+
+(* pre-fix behaviour, kept as documentation (definitions ..._orig):
+   fixed skip of 3 -> log.Panic through NewStdLog names the log package *)
+Theorem C15_std_fixed_depth_refuted :
+  exists f us, fe_sugared f = chain_kind [CWithOptions [OWithCaller true]] /\
+    log_via_orig 100 f (apply_chain (HL (new_logger (en_level DebugLevel))) [CWithOptions [OWithCaller true]]) 0 us initStorage
+    <> expected_zap (en_level DebugLevel) [CWithOptions [OWithCaller true]] f 0 us.
+Proof. exact std_orig_refuted. Qed.
+Print Assumptions C15_std_fixed_depth_refuted.
+
+(* zapslog: caller = the frame WithCallerSkip frames above the call site slog recorded; the
+   trace starts there and is attached from the configured slog level upwards *)
+Theorem C15_slog : forall fuel core os m slvl us storage,
+  0 <= hopts_skip os -> (1 <= storage)%nat -> (length us + 8 <= fuel)%nat ->
+  slog_log slog_handle fuel (new_handler core os) m slvl us storage = expected_slog core os slvl us.
+Proof. exact slog_spec. Qed.
+Print Assumptions C15_slog.
+
+Theorem C15_slog_frame : forall fuel core os m slvl us storage,
+  0 <= hopts_skip os -> (1 <= storage)%nat -> (length us + 8 <= fuel)%nat ->
+  core (convertSlogLevel slvl) = true -> hcfg_caller false os = true ->
+  let out := slog_log slog_handle fuel (new_handler core os) m slvl us storage in
+  caller_of out = nth_error us (Z.to_nat (hopts_skip os)) /\
+  (stack_of out <> [] -> hcfg_stack 8 os <= slvl) /\
+  (hcfg_stack 8 os <= slvl -> stack_of out = removelast (skipn (Z.to_nat (hopts_skip os)) us)).
+Proof. exact slog_frame_thm. Qed.
+Print Assumptions C15_slog_frame.
+
+(* pre-fix zapslog: WithCallerSkip moved the trace but not the caller *)
+Theorem C15_slog_skip_refuted :
+  exists os us, 0 <= hopts_skip os /\
+    slog_log slog_handle_orig 100 (new_handler (en_level DebugLevel) os) 2 4 us initStorage
+    <> expected_slog (en_level DebugLevel) os 4 us.
+Proof. exact slog_orig_refuted. Qed.
+Print Assumptions C15_slog_skip_refuted.
+
+(* EntryCaller.TrimmedPath keeps the leaf directory and the file name *)
+Theorem C15_trimmed_path : forall d file lt, trimmed_path d file lt = trimmed_spec d file lt.
+Proof. exact trimmed_path_spec. Qed.
+Print Assumptions C15_trimmed_path.
+
+Theorem C15_trimmed_path_leaf : forall pre dir base lt,
+  has_byte slash dir = false -> has_byte slash base = false ->
+  trimmed_path true (pre ++ slash :: dir ++ slash :: base) lt = dir ++ slash :: base ++ colon :: lt.
+Proof. exact trimmed_path_leaf. Qed.
+Print Assumptions C15_trimmed_path_leaf.
+
+(* the oracle the driver runs accepts what the model observes, on every well-formed case *)
+Theorem C15_wire : forall i, wf i = true -> spec i (model i) = true.
+Proof. exact spec_model. Qed.
+Print Assumptions C15_wire.
+
+(* ---- non-vacuity ---- *)
+Definition ex_core : enabler := en_level DebugLevel.
+Definition ex_us : list frame := [FU 10; FU 11; FU 12; FU 13; FU 99].
+(* New(core, AddCaller()).Sugar().With(..).WithOptions(AddCallerSkip(2), AddStacktrace(Warn)).Desugar().Sugar(): Errorw from
+   two wrappers deep reports frame 12 and a trace 12,13 *)
+Definition ex_chain : list conv :=
+  [CWithOptions [OWithCaller true]; CSugar; CWith true; CWithOptions [OAddCallerSkip 2; OAddStacktrace (en_level WarnLevel)]; CDesugar; CSugar].
+Example C15_example_hyps :
+  fe_sugared (FeSugar 2 3) = chain_kind ex_chain /\ 0 <= total_skip ex_chain /\ hd_not_log ex_us = true /\
+  ex_core (fe_level (FeSugar 2 3) 0) = true /\ cfg_caller_on ex_chain = true /\
+  cfg_stack_on ex_chain (fe_level (FeSugar 2 3) 0) = true /\ cfg_stack_on ex_chain InfoLevel = false.
+Proof. vm_compute. repeat split; discriminate. Qed.
+Example C15_example_sugar :
+  log_via 40 (FeSugar 2 3) (apply_chain (HL (new_logger ex_core)) ex_chain) 0 ex_us initStorage
+  = Entry {| e_caller := Some (FU 12); e_stack := [FU 12; FU 13]; e_err := false |}.
+Proof. vm_compute. reflexivity. Qed.
+(* the same chain ending in a plain Logger, through log.Panicln of NewStdLogAt(l, Error) *)
+Example C15_example_std :
+  log_via 40 (FeStd 1 6) (apply_chain (HL (new_logger ex_core)) (ex_chain ++ [CDesugar])) ErrorLevel ex_us initStorage
+  = Entry {| e_caller := Some (FU 12); e_stack := [FU 12; FU 13]; e_err := false |}.
+Proof. vm_compute. reflexivity. Qed.
+(* a 200-frame stack is captured whole starting from the 64-entry slab *)
+Example C15_example_deep :
+  option_map (fun r => length (fst r)) (capture 10 0 Full (deep_stack 200) initStorage) = Some 198%nat.
+Proof. vm_compute. reflexivity. Qed.
+Example C15_example_slog :
+  slog_log slog_handle 40 (new_handler ex_core [HWithCaller true; HWithCallerSkip 1; HAddStacktraceAt 4]) 2 4 ex_us initStorage
+  = Entry {| e_caller := Some (FU 11); e_stack := [FU 11; FU 12; FU 13]; e_err := false |}.
+Proof. vm_compute. reflexivity. Qed.
+Example C15_example_wire :
+  wf (SL [SZ 0; SL [SZ 1; SZ 2; SZ 3]; SL [SL [SZ 5; SL [SL [SZ 1; SZ 1]; SL [SZ 0; SZ 1]]]; SL [SZ 0]]; SZ 0; SL [SZ 0; SZ (-1)];
+          SL [SZ 10; SZ 11; SZ 12]]) = true.
+Proof. vm_compute. reflexivity. Qed.
